@@ -162,8 +162,4 @@ func caseMsg(run *sim.Run, i int) {
 	check(s, nil, t, id+1)
 	check(s, nil, int64(id>>9), uint64(t))
 	check(s, sdk.Uint64ToBigEndian(id), t, 0)
-	if i < 1 {
-		run.Sample(map[string]any{"section": "msg", "originator": fmt.Sprintf("%x", s[:1]), "content": fmt.Sprintf("%x", s[1:]), "time": t, "id": id,
-			"message": fmt.Sprintf("%x", tsstypes.EncodeSigning(sdk.Context{}.WithBlockTime(time.Unix(t, 0)), id, s[:1], s[1:]))})
-	}
 }
